@@ -256,7 +256,7 @@ var subConc = harness.Define("concurrent", "N in {2,4,8,16,32} goroutines x GOMA
 
 func TestConcurrent(t *testing.T) {
 	all := corpus.All()
-	harness.Rapid(t, harness.N(20, 4*40), func(t *rapid.T) {
+	harness.Rapid(t, harness.N(20, 4*150), func(t *rapid.T) {
 		var c Case
 		c.Procs = rapid.SampledFrom([]int{2, 4, 16}).Draw(t, "procs")
 		n := rapid.SampledFrom([]int{2, 4, 8, 16, 32}).Draw(t, "goroutines")
